@@ -51,6 +51,7 @@ type vfLogEv struct {
 type vfItem struct {
 	resp     clientv3.WatchResponse
 	terminal bool
+	done     chan struct{} // closed by the pump once go-zero received the response
 }
 
 type vfStream struct {
@@ -74,6 +75,23 @@ type vfEtcd struct {
 	watches    int
 	note       chan struct{}
 	conn       *grpc.ClientConn
+	// reload bookkeeping: consecutive Watch calls answered "compacted" since the last
+	// Get; once go-zero has made vfRefusalsWithoutLoad of them the reload is provably not
+	// happening (the unchanged tree makes one, then loads): the next call is parked so
+	// that go-zero stops spinning, and the history is decided from the calls, not from a
+	// watchdog
+	refused int
+	stuck   bool
+	calls   []string
+}
+
+const vfRefusalsWithoutLoad = 5
+
+func (f *vfEtcd) vfCall(format string, a ...any) {
+	if len(f.calls) == 16 {
+		f.calls = append(f.calls[:0], f.calls[1:]...)
+	}
+	f.calls = append(f.calls, fmt.Sprintf("#%d ", f.gets+f.watches)+fmt.Sprintf(format, a...))
 }
 
 var vfErrUnused = errors.New("not scripted")
@@ -126,6 +144,10 @@ func (f *vfEtcd) Get(_ context.Context, key string, opts ...clientv3.OpOption) (
 	}
 	f.gets++
 	f.loadRev = f.rev
+	f.refused = 0
+	if f.compactRev > 0 {
+		f.vfCall("Get(range) -> %d key(s) at revision %d", len(keys), f.rev)
+	}
 	f.vfPoke()
 	return resp, nil
 }
@@ -146,10 +168,19 @@ func (f *vfEtcd) Watch(ctx context.Context, key string, opts ...clientv3.OpOptio
 	f.watches++
 	f.stalled = false
 	switch {
+	case f.stuck || (start != 0 && start < f.compactRev && f.refused >= vfRefusalsWithoutLoad):
+		f.stuck = true
+		st.dead = true // parked: neither refused nor served
+		f.vfCall("Watch(rev=%d) -> (not answered: still below compact revision %d and no Get since the compaction was reported; the harness gives up on this watch)", start, f.compactRev)
 	case start != 0 && start < f.compactRev:
 		st.q = append(st.q, vfItem{resp: clientv3.WatchResponse{Header: pb.ResponseHeader{Revision: f.rev}, Canceled: true, CompactRevision: f.compactRev}, terminal: true})
 		st.dead = true
+		f.refused++
+		f.vfCall("Watch(rev=%d) -> canceled: required revision has been compacted (compact revision %d)", start, f.compactRev)
 	case start != 0:
+		if f.compactRev > 0 {
+			f.vfCall("Watch(rev=%d) -> served", start)
+		}
 		for _, e := range f.log {
 			if e.rev >= start && vfMatch(e.k, o) {
 				st.q = append(st.q, vfItem{resp: clientv3.WatchResponse{Header: pb.ResponseHeader{Revision: e.rev}, Events: []*clientv3.Event{vfEvent(e)}}})
@@ -191,11 +222,29 @@ func (f *vfEtcd) vfPump(ctx context.Context, st *vfStream) {
 			f.mu.Unlock()
 			return
 		}
+		if it.done != nil {
+			close(it.done)
+		}
 		if it.terminal {
 			close(st.ch)
 			return
 		}
 	}
+}
+
+// vfProbe queues a progress notification behind everything already queued on the live
+// stream; the returned channel is closed once go-zero has RECEIVED it, i.e. (a stream
+// is handled sequentially, listeners are called from the handling) once every earlier
+// response has been handled completely. nil: no live stream.
+func (f *vfEtcd) vfProbe() chan struct{} {
+	f.mu.Lock()
+	defer f.mu.Unlock()
+	if f.cur == nil || f.cur.dead || f.stalled {
+		return nil
+	}
+	done := make(chan struct{})
+	f.cur.vfPush(vfItem{resp: clientv3.WatchResponse{Header: pb.ResponseHeader{Revision: f.rev}}, done: done})
+	return done
 }
 
 func (st *vfStream) vfPush(it vfItem) {
@@ -253,6 +302,7 @@ func (f *vfEtcd) vfBreak(compact bool) (watches int) {
 	}
 	if f.cur != nil && !f.cur.dead {
 		f.cur.dead = true
+		f.vfCall("(live stream) <- canceled by the scripted etcd, channel closed (compacted=%v)", compact)
 		f.cur.vfPush(vfItem{resp: clientv3.WatchResponse{Header: pb.ResponseHeader{Revision: f.rev}, Canceled: true}, terminal: true})
 	}
 	return
@@ -278,23 +328,38 @@ func (f *vfEtcd) vfWaitCalls(gets, watches int) bool {
 
 // vfWaitLive waits until go-zero has re-established a watch that is being served
 // (not answered "compacted"): its recovery, whatever it consisted of, is then over.
-func (f *vfEtcd) vfWaitLive(watches int) bool {
+// vfStuck (go-zero keeps asking for a compacted revision without loading) is decided
+// from the calls; only vfTimeout is a watchdog.
+func (f *vfEtcd) vfWaitLive(watches int) int {
 	t := time.NewTimer(vfWatchdog)
 	defer t.Stop()
 	for {
 		f.mu.Lock()
+		stuck := f.stuck
 		ok := f.watches >= watches && f.cur != nil && !f.cur.dead
 		f.mu.Unlock()
-		if ok {
-			return true
+		switch {
+		case stuck:
+			return vfStuck
+		case ok:
+			return vfLive
 		}
 		select {
 		case <-f.note:
 		case <-t.C:
-			return false
+			return vfTimeout
 		}
 	}
 }
+
+const (
+	vfLive = iota
+	vfStuck
+	vfTimeout
+)
+
+// reports of the causally decided "no reload" outcome per child process
+var vfReloadMissingReports int
 
 func (f *vfEtcd) vfView(prefix string) map[string]bool {
 	f.mu.Lock()
@@ -350,20 +415,57 @@ func (r *vfRec) vfSnapshot() (int, []string) {
 	return r.calls, r.last
 }
 
-func (r *vfRec) vfWaitFor(marker string) bool {
-	t := time.NewTimer(vfWatchdog)
-	defer t.Stop()
-	for {
+const (
+	vfSeen = iota
+	vfHandled
+	vfNever
+)
+
+// outcomes "go-zero handled the marker's response and the observer was not shown it"
+// in this process; from the fifth on the question is put at once and nothing is reported
+var vfHandledUnseen int
+
+// vfWaitFor waits until the observer has been shown the marker (vfSeen); or until
+// go-zero has provably finished handling the response that carried it - it received a
+// progress notification queued behind it - without showing it (vfHandled: decided from
+// the order of responses, not from elapsed time; the timer below only decides when
+// the notification is sent); or until the watchdog fires (vfNever).
+func (r *vfRec) vfWaitFor(marker string, f *vfEtcd) int {
+	seen := func() bool {
 		_, last := r.vfSnapshot()
 		for _, v := range last {
 			if v == marker {
 				return true
 			}
 		}
+		return false
+	}
+	t := time.NewTimer(vfWatchdog)
+	defer t.Stop()
+	d := time.Second
+	if vfHandledUnseen >= 5 {
+		d = 0
+	}
+	n := time.NewTimer(d)
+	defer n.Stop()
+	ask := n.C
+	var done chan struct{}
+	for {
+		if seen() {
+			return vfSeen
+		}
 		select {
 		case <-r.sig:
+		case <-ask:
+			ask = nil
+			done = f.vfProbe()
+		case <-done:
+			if seen() {
+				return vfSeen
+			}
+			return vfHandled
 		case <-t.C:
-			return false
+			return vfNever
 		}
 	}
 }
@@ -460,9 +562,21 @@ func vfResolverHistory(c *kit.Case) {
 		}
 		markerKey = fmt.Sprintf("svc/~m%d", markerN)
 		f.vfApply(vfOp{k: markerKey, v: mv})
-		if !srec.vfWaitFor(mv) {
+		switch srec.vfWaitFor(mv, f) {
+		case vfNever:
 			c.Inconclusive("watchdog: marker not observed after " + step)
 			return false
+		case vfHandled:
+			// the synchronising subscriber will not be shown the marker; what the resolver
+			// has published by now is final as well (its listener runs before this one): the
+			// ordinary comparison below decides, on a state that stopped changing
+			c.Obs("wb_syncs_decided_by_probe", 1)
+			vfHandledUnseen++
+			if vfHandledUnseen > 5 {
+				c.Obs("wb_reports_suppressed_marker_unseen", 1)
+				return false
+			}
+			rec.vfStable()
 		}
 		exp := f.vfView("svc")
 		eval := func() (string, []string) {
@@ -560,10 +674,53 @@ func vfResolverHistory(c *kit.Case) {
 				}
 			}
 			compact := r.Bool()
+			f.mu.Lock()
+			g0 := f.gets
+			f.mu.Unlock()
 			w := f.vfBreak(compact)
-			if !f.vfWaitLive(w) {
+			switch f.vfWaitLive(w) {
+			case vfStuck:
+				// no reload, no served watch: a registration made now cannot reach the resolver
+				c.Obs("wb_compactions_not_followed_by_load", 1)
+				vfReloadMissingReports++
+				if vfReloadMissingReports > 5 {
+					c.Obs("wb_reports_suppressed_reload_missing", 1)
+					return
+				}
+				steps = append(steps, fmt.Sprintf("PARTITION{%d ops missed} then stream broken (compacted=true)", q))
+				markerN++
+				mv := fmt.Sprintf("marker-%d", markerN)
+				f.vfApply(vfOp{k: fmt.Sprintf("svc/~m%d", markerN), v: mv})
+				steps = append(steps, "PUT marker "+mv+" (registered after go-zero stopped at the compaction)")
+				_, sv := srec.vfSnapshot()
+				_, pub := rec.vfSnapshot()
+				for _, v := range sv {
+					if v == mv {
+						c.Inconclusive("go-zero did not reload after the compaction, yet the marker is visible")
+						return
+					}
+				}
+				f.mu.Lock()
+				calls := append([]string(nil), f.calls...)
+				f.mu.Unlock()
+				var es []string
+				for v := range f.vfView("svc") {
+					es = append(es, v)
+				}
+				sort.Strings(es)
+				c.Viol("C13/resolver-wb-reload-missing/compaction-not-followed-by-load",
+					fmt.Sprintf("after a compaction go-zero re-issued Watch %d times at a compacted revision (each answered \"compacted\") without a Get: no reload, no served watch; subscriber view and published addresses cannot follow the registrations", vfRefusalsWithoutLoad),
+					map[string]any{"steps": steps, "etcd_calls_on_this_watch": calls, "registered_values": es, "subscriber_values": sv, "published": pub})
+				return
+			case vfTimeout:
 				c.Inconclusive("watchdog: watch not re-established")
 				return
+			}
+			f.mu.Lock()
+			g1 := f.gets
+			f.mu.Unlock()
+			if compact && g1 > g0 {
+				c.Obs("wb_compactions_followed_by_load", 1)
 			}
 			c.Obs("wb_resolver_reloads", 1)
 			if !check(fmt.Sprintf("PARTITION{%d ops missed} then stream broken (compacted=%v)", q, compact)) {
